@@ -7,12 +7,15 @@ package http
 // client.Client; also drives cachedConn.Read directly with arbitrary read sizes.
 
 import (
+	"bufio"
 	"bytes"
 	"encoding/json"
 	"errors"
 	"io"
 	"net"
+	"net/http"
 	"strconv"
+	"strings"
 	"sync"
 	"testing"
 	"time"
@@ -82,12 +85,16 @@ func (c *c18Conn) SetDeadline(t time.Time) error      { return nil }
 func (c *c18Conn) SetReadDeadline(t time.Time) error  { return nil }
 func (c *c18Conn) SetWriteDeadline(t time.Time) error { return nil }
 
-// upstream: records what it is sent; answers a plain request (first bytes "GET ") once its header
-// block is complete with an empty response of the configured status and Connection: close.
+// upstream: records what it is sent.  A tunnel upstream (dialled by handleConnect) never answers.  A
+// plain upstream (dialled by net/http's Transport for handleRequest) answers the forwarded request once
+// its header block and the body its Content-Length declares have arrived, with an empty response of the
+// status the request names (X-Verif-Status, else the configured one) and Connection: close; bytes that
+// are not an HTTP request (a TLS ClientHello of an https:// target) end the connection at once.
 type c18Up struct {
 	mu     sync.Mutex
 	got    []byte
 	status int
+	plain  bool
 	resp   []byte
 	sent   bool
 	wake   chan struct{}
@@ -116,12 +123,36 @@ func (u *c18Up) Read(p []byte) (int, error) {
 func (u *c18Up) Write(p []byte) (int, error) {
 	u.mu.Lock()
 	u.got = append(u.got, p...)
-	if !u.sent && bytes.HasPrefix(u.got, []byte("GET ")) && bytes.Contains(u.got, []byte("\r\n\r\n")) {
-		u.sent = true
-		u.resp = []byte("HTTP/1.1 " + strconv.Itoa(u.status) + " X\r\nContent-Length: 0\r\nConnection: close\r\n\r\n")
-		select {
-		case u.wake <- struct{}{}:
-		default:
+	if u.plain && !u.sent && len(u.got) > 0 {
+		if c := u.got[0]; c < 'A' || c > 'Z' {
+			// not a request line: hang up
+			u.sent = true
+			u.mu.Unlock()
+			u.Close()
+			return len(p), nil
+		}
+		if k := bytes.Index(u.got, []byte("\r\n\r\n")); k >= 0 {
+			head := u.got[:k+2]
+			need, st := 0, u.status
+			for _, ln := range bytes.Split(head, []byte("\r\n")) {
+				l := strings.ToLower(string(ln))
+				if v, ok := strings.CutPrefix(l, "content-length:"); ok {
+					need, _ = strconv.Atoi(strings.TrimSpace(v))
+				}
+				if v, ok := strings.CutPrefix(l, "x-verif-status:"); ok {
+					if n, err := strconv.Atoi(strings.TrimSpace(v)); err == nil {
+						st = n
+					}
+				}
+			}
+			if len(u.got) >= k+4+need {
+				u.sent = true
+				u.resp = []byte("HTTP/1.1 " + strconv.Itoa(st) + " X\r\nContent-Length: 0\r\nConnection: close\r\n\r\n")
+				select {
+				case u.wake <- struct{}{}:
+				default:
+				}
+			}
 		}
 	}
 	u.mu.Unlock()
@@ -138,6 +169,8 @@ type c18Client struct {
 	log    *c18Log
 	dialOK bool
 	status []int
+	mu     sync.Mutex
+	mode   string // "connect" / "plain": which handler announced itself last (EventLogger)
 	ups    []*c18Up
 }
 
@@ -146,11 +179,13 @@ func (m *c18Client) TCP(addr string) (net.Conn, error) {
 	if !m.dialOK {
 		return nil, errors.New("dial failed")
 	}
+	m.mu.Lock()
+	defer m.mu.Unlock()
 	st := 200
 	if len(m.status) > len(m.ups) {
 		st = m.status[len(m.ups)]
 	}
-	u := &c18Up{done: make(chan struct{}), wake: make(chan struct{}, 1), status: st}
+	u := &c18Up{done: make(chan struct{}), wake: make(chan struct{}, 1), status: st, plain: m.mode != "connect"}
 	m.ups = append(m.ups, u)
 	return u, nil
 }
@@ -159,6 +194,17 @@ func (m *c18Client) UDP() (client.HyUDPConn, error) {
 	return nil, errors.New("no udp")
 }
 func (m *c18Client) Close() error { return nil }
+
+// EventLogger of the server under test: tells the scripted upstream whether the next dial belongs to
+// handleConnect (tunnel) or to handleRequest (plain request forwarded by net/http's Transport)
+func (m *c18Client) setMode(s string) { m.mu.Lock(); m.mode = s; m.mu.Unlock() }
+
+type c18Events struct{ cl *c18Client }
+
+func (e c18Events) ConnectRequest(addr net.Addr, reqAddr string)          { e.cl.setMode("connect") }
+func (e c18Events) ConnectError(addr net.Addr, reqAddr string, err error) {}
+func (e c18Events) HTTPRequest(addr net.Addr, reqURL string)              { e.cl.setMode("plain") }
+func (e c18Events) HTTPError(addr net.Addr, reqURL string, err error)     {}
 
 type c18HCase struct {
 	K      string   `json:"k"`
@@ -250,6 +296,73 @@ func c18Cached(c c18HCase, res map[string]any) {
 	res["why"] = why
 }
 
+// What net/http makes of the client's byte stream, obtained by running http.ReadRequest over the whole
+// stream independently of the server under test: for every request up to (and including) the first
+// CONNECT or the first parse error the fields dispatch / handleConnect / handleRequest look at.  The
+// request-target form is classified the way ReadRequest itself does (CONNECT + not starting with "/"
+// = authority-form).  h = stream offset of the first byte behind the CONNECT's header block (-1: the
+// stream holds no CONNECT).  A plain request's body is consumed as the forwarding Transport does.
+type c18CountReader struct {
+	r io.Reader
+	n int
+}
+
+func (c *c18CountReader) Read(p []byte) (int, error) {
+	n, err := c.r.Read(p)
+	c.n += n
+	return n, err
+}
+
+func c18Form(method, uri string) string {
+	if method == "CONNECT" {
+		if strings.HasPrefix(uri, "/") {
+			return "origin"
+		}
+		return "authority"
+	}
+	if uri == "*" {
+		return "asterisk"
+	}
+	if strings.HasPrefix(uri, "/") {
+		return "origin"
+	}
+	return "absolute"
+}
+
+func c18Preparse(stream []byte) (parsed []map[string]any, h int) {
+	cr := &c18CountReader{r: bytes.NewReader(stream)}
+	br := bufio.NewReader(cr)
+	parsed = []map[string]any{}
+	for {
+		req, err := http.ReadRequest(br)
+		if err != nil {
+			return parsed, -1
+		}
+		p := map[string]any{
+			"method": vHex([]byte(req.Method)), "uri": vHex([]byte(req.RequestURI)),
+			"form":   c18Form(req.Method, req.RequestURI),
+			"scheme": vHex([]byte(req.URL.Scheme)), "uhost": vHex([]byte(req.URL.Host)), "host": vHex([]byte(req.Host)),
+			"opaque": vHex([]byte(req.URL.Opaque)), "proto": req.Proto,
+			// the keep-alive condition of handleRequest, on the request as parsed
+			"ka": req.ProtoAtLeast(1, 1) && (strings.ToLower(req.Header.Get("Proxy-Connection")) == "keep-alive" ||
+				strings.ToLower(req.Header.Get("Connection")) == "keep-alive"),
+			"st": 200,
+		}
+		if v, ok := req.Header["Proxy-Authorization"]; ok && len(v) > 0 {
+			p["pauth"] = vHex([]byte(v[0]))
+		}
+		if n, err := strconv.Atoi(req.Header.Get("X-Verif-Status")); err == nil {
+			p["st"] = n
+		}
+		parsed = append(parsed, p)
+		if req.Method == "CONNECT" {
+			return parsed, cr.n - br.Buffered()
+		}
+		_, _ = io.Copy(io.Discard, req.Body)
+		_ = req.Body.Close()
+	}
+}
+
 func c18HTTP(t *testing.T, c c18HCase, res map[string]any) {
 	log := &c18Log{}
 	var stream []byte
@@ -259,8 +372,11 @@ func c18HTTP(t *testing.T, c c18HCase, res map[string]any) {
 		conn.chunks = append(conn.chunks, b)
 		stream = append(stream, b...)
 	}
+	parsed, hoff := c18Preparse(stream)
+	res["parsed"] = parsed
+	res["h"] = hoff
 	cl := &c18Client{log: log, dialOK: c.Dial, status: c.Status}
-	s := &Server{HyClient: cl, AuthRealm: "verif"}
+	s := &Server{HyClient: cl, AuthRealm: "verif", EventLogger: c18Events{cl}}
 	user, pass := string(vUnhex(c.User)), string(vUnhex(c.Pass))
 	if c.Auth {
 		s.AuthFunc = func(u, p string) bool {
@@ -270,6 +386,8 @@ func c18HTTP(t *testing.T, c c18HCase, res map[string]any) {
 		}
 	}
 	done := make(chan string, 1)
+	t0 := time.Now()
+	defer func() { res["ms"] = time.Since(t0).Milliseconds() }()
 	go func() {
 		p, msg := vCatch(func() { s.dispatch(conn) })
 		if p {
@@ -295,13 +413,16 @@ func c18HTTP(t *testing.T, c c18HCase, res map[string]any) {
 	log.mu.Lock()
 	ev := append([]map[string]any(nil), log.ev...)
 	log.mu.Unlock()
-	// CONNECT relay = what the last upstream got, unless that upstream served a plain request
+	// CONNECT relay = what the last upstream got, if that upstream was dialled by handleConnect
 	var relay []byte
 	isConnect := false
-	if n := len(cl.ups); n > 0 {
-		u := cl.ups[n-1]
+	cl.mu.Lock()
+	ups := append([]*c18Up(nil), cl.ups...)
+	cl.mu.Unlock()
+	if n := len(ups); n > 0 {
+		u := ups[n-1]
 		u.mu.Lock()
-		if !u.sent && c.Tail >= 0 {
+		if !u.plain {
 			isConnect = true
 			relay = append([]byte(nil), u.got...)
 		}
@@ -327,10 +448,15 @@ func c18HTTP(t *testing.T, c c18HCase, res map[string]any) {
 			ok, why = false, s
 		}
 	}
+	// the property, on the implementation alone: every upstream open (HyClient.TCP, HyClient.UDP) belongs to a
+	// request whose credentials AuthFunc accepted - an accepted AuthFunc call since the previous upstream open
+	// (every request is gated separately), whatever the method and the form of the request-target
 	accepted, opened, closes := 0, 0, 0
+	credit := false
 	for _, e := range ev {
 		switch e["t"] {
 		case "auth":
+			credit = e["ok"] == true
 			if e["ok"] == true {
 				accepted++
 			}
@@ -339,14 +465,28 @@ func c18HTTP(t *testing.T, c c18HCase, res map[string]any) {
 			if c.Auth && opened > accepted {
 				fail("upstream opened for a request that did not present accepted credentials")
 			}
+			if c.Auth && !credit {
+				fail("upstream opened for a request that did not present accepted credentials (no accepted AuthFunc call since the previous upstream open)")
+			}
+			credit = false
 		case "close":
 			closes++
 		}
 	}
+	if c.Auth && len(parsed) == 0 && opened > 0 {
+		fail("upstream opened although the stream holds no well-formed request")
+	}
 	if closes != 1 {
 		fail("client connection closed " + strconv.Itoa(closes) + " times")
 	}
-	if isConnect && c.Tail <= len(stream) && !bytes.Equal(relay, stream[c.Tail:]) {
+	if c.Tail >= 0 && hoff >= 0 && c.Tail != hoff {
+		fail("harness: generator and net/http disagree on where the CONNECT header block ends")
+	}
+	tail := c.Tail
+	if hoff >= 0 {
+		tail = hoff
+	}
+	if isConnect && tail >= 0 && tail <= len(stream) && !bytes.Equal(relay, stream[tail:]) {
 		fail("bytes pipelined behind the CONNECT header block did not reach the upstream unmodified")
 	}
 	res["ok"] = ok
